@@ -3,7 +3,8 @@
 
 usage: seeded.py <src_dir> <id> [--tier quick|thorough] [--no-suite] [--runs N]
   <src_dir> holds patch.diff, demo.py, meta.json (as delivered); <id> e.g. C14-a
-Steps (all against /repo itself, undone afterwards with git checkout):
+Steps (against a private scratch worktree of /repo's HEAD, removed afterwards; /repo itself is never touched, so several
+evaluations -- and ordinary check runs against /repo -- can go on at the same time):
   1. demo.py passes on the unchanged tree
   2. patch applies; demo.py fails with it
   3. the pinned suite still passes with it (baseline_check.py)
@@ -27,9 +28,21 @@ def main():
     runs = sys.argv[sys.argv.index("--runs") + 1] if "--runs" in sys.argv else None
     meta_in = json.load(open(os.path.join(src, "meta.json")))
     prop = meta_in.get("property") or sid.split("-")[0]
-    if run(f"git -C {REPO} status --porcelain").stdout.strip():
-        print("refusing: /repo has uncommitted changes")
+    global REPO
+    wt = f"/tmp/seed-wt-{os.getpid()}"
+    if run(f"git -C /repo worktree add --detach {wt} HEAD").returncode:
+        print("cannot create a scratch worktree")
         return 2
+    REPO = wt
+    os.environ["VERIF_REPO_ROOT"] = wt
+    try:
+        return _evaluate(src, sid, tier, runs, meta_in, prop)
+    finally:
+        run(f"git -C /repo worktree remove --force {wt}")
+        run("git -C /repo worktree prune")
+
+
+def _evaluate(src, sid, tier, runs, meta_in, prop):
     out = {"id": sid, "property": prop, "summary": meta_in.get("summary"), "needs": meta_in.get("needs"), "files": meta_in.get("files"),
            "author": "independent sub-agent given only the property text and a scratch worktree", "agent_tests_run": meta_in.get("tests_run")}
     env = dict(os.environ, PYTHONPATH=REPO)
@@ -45,7 +58,7 @@ def main():
         out["demo_patched_exit"] = p1.returncode
         out["demo_patched_output"] = (p1.stdout + p1.stderr)[-600:]
         if "--no-suite" not in sys.argv:
-            ps = run(f"/venv/bin/python {VERIF}/tools/baseline_check.py")
+            ps = run(f"/venv/bin/python {VERIF}/tools/baseline_check.py {REPO}")
             out["suite_passes_with_change"] = ps.returncode == 0
             out["suite_line"] = ps.stdout.strip().splitlines()[-1] if ps.stdout.strip() else ps.stderr[-200:]
         t0 = time.time()
@@ -84,7 +97,10 @@ def main():
             if k not in out and k in old:
                 out[k] = old[k]  # an earlier evaluation ran the suite; --no-suite re-evaluations keep its verdict
     json.dump(out, open(mp, "w"), indent=1)
-    run(f"rm -f {VERIF}/replays/C*.json")
+    for l in viol:
+        rp = l.split("replay=")[1].strip()
+        if os.path.exists(rp):
+            os.remove(rp)
     print(json.dumps({k: out[k] for k in ("id", "property", "confirmed", "demo_unchanged_exit", "demo_patched_exit")} | {"suite": out.get("suite_passes_with_change"), "check": out["check"]}, indent=1))
     return 0
 
